@@ -342,6 +342,24 @@ func replay(variant string, idx int, beh []Step) {
 			if n := frugal.VerifRegistrySize(unwrap(tr)); n != s.Reg && !diverged {
 				violate("C01", "registry-size-after-register", fmt.Sprintf("%s: after Register(%d) the registry holds %d entries, the specification %d", variant, s.C, n, s.Reg), prefix(i))
 			}
+		case "Collide":
+			// a second Request with the same FContext while the first is in flight: rejected, registry untouched
+			c := callers[s.C]
+			cdone := make(chan error, 1)
+			go func() { _, err := tr.Request(c.ctx, wire.OpFrame(c.opid, []byte("again"))); cdone <- err }()
+			select {
+			case err := <-cdone:
+				if err == nil {
+					violate("C01", "collide-accepted", fmt.Sprintf("%s: a second Request with the FContext of in-flight caller %d was accepted", variant, s.C), prefix(i))
+				}
+			case <-time.After(stepWait):
+				violate("C13", "collide-blocked", fmt.Sprintf("%s: a second Request with the FContext of in-flight caller %d did not return", variant, s.C), prefix(i))
+				diverged, abort = true, true
+			}
+			if n := frugal.VerifRegistrySize(unwrap(tr)); n != s.Reg && !diverged {
+				violate("C01,C06", "collide-removed-registration", fmt.Sprintf("%s: after a rejected second Request with caller %d's FContext the registry holds %d entries, the specification %d: the in-flight request can no longer receive its response", variant, s.C, n, s.Reg), prefix(i))
+				diverged = true
+			}
 		case "SendOk", "SendFail", "SendStall":
 			if variant != "adapter" {
 				break // the NATS transport publishes inline: no send goroutine
@@ -818,6 +836,23 @@ func timingCase(transport, call, peerKind string, to time.Duration) {
 		respond = func() { ap.inject(id) }
 		cleanup = func() { ap.close() }
 		tr.Open()
+		switch peerKind {
+		case "close-in-progress":
+			// another goroutine is inside Close(): the underlying close lingers
+			entered := make(chan struct{})
+			ap.pipe.OnClose = func() error { close(entered); <-release; return nil }
+			go tr.Close()
+			<-entered
+			cleanup = func() {}
+		case "reopen-in-progress":
+			// the transport was closed and another goroutine is inside Open(): the connect stalls
+			tr.Close()
+			entered := make(chan struct{})
+			ap.pipe.OnOpen = func() error { close(entered); <-release; return nil }
+			go tr.Open()
+			<-entered
+			cleanup = func() { time.Sleep(time.Millisecond); ap.close() }
+		}
 	case "nats":
 		np, err := newNatsPeer()
 		if err != nil {
@@ -838,6 +873,20 @@ func timingCase(transport, call, peerKind string, to time.Duration) {
 			delay = to / 4
 		}
 		ts := httptest.NewServer(http.HandlerFunc(func(w http.ResponseWriter, r *http.Request) {
+			if peerKind == "stall-mid-body" {
+				// status line, headers and the first bytes of the body arrive in time, the rest never does
+				w.Header().Set("Content-Type", "application/x-frugal")
+				w.Header().Set("Content-Length", "64")
+				w.Write([]byte("AAAA"))
+				if f, ok := w.(http.Flusher); ok {
+					f.Flush()
+				}
+				select {
+				case <-release:
+				case <-time.After(to + 6*time.Second):
+				}
+				return
+			}
 			select {
 			case <-time.After(delay):
 			case <-release:
@@ -893,13 +942,16 @@ func timingCase(transport, call, peerKind string, to time.Duration) {
 		if el > to+allowance {
 			violate("C13", "late-return/"+transport+"/"+call+"/"+peerKind, fmt.Sprintf("%s %s with a %v timeout against a %s peer returned after %v (allowance %v)", transport, call, to, peerKind, el, allowance), replayObj)
 		}
-		expectTimeout := peerKind == "silent" || peerKind == "late" || ((peerKind == "blocked-write" || peerKind == "blocked-flush") && transport == "adapter")
+		expectTimeout := peerKind == "silent" || peerKind == "late" || peerKind == "stall-mid-body" || ((peerKind == "blocked-write" || peerKind == "blocked-flush") && transport == "adapter")
+		if peerKind == "close-in-progress" || peerKind == "reopen-in-progress" {
+			expectTimeout = false // TIMED_OUT or NOT_OPEN are both fine: only the deadline matters
+		}
 		if call == "oneway" {
 			// write-and-forget: only a stalled write / flush can make it wait
 			expectTimeout = transport == "adapter" && (peerKind == "blocked-write" || peerKind == "blocked-flush")
-		}
-		if transport == "http" && call == "oneway" {
-			expectTimeout = peerKind == "silent" || peerKind == "late"
+			if transport == "http" {
+				expectTimeout = peerKind == "silent" || peerKind == "late" || peerKind == "stall-mid-body"
+			}
 		}
 		if expectTimeout && got != gotTimeout {
 			violate("C13", "not-timed-out/"+transport+"/"+call+"/"+peerKind, fmt.Sprintf("%s %s, %v timeout, %s peer: expected TIMED_OUT, got %s (%s)", transport, call, to, peerKind, row.Outcome, errText), replayObj)
@@ -981,13 +1033,14 @@ func main() {
 		}
 		for _, to := range tos {
 			for _, call := range []string{"request", "oneway"} {
-				for _, pk := range []string{"silent", "late", "early", "blocked-write", "blocked-flush"} {
+				for _, pk := range []string{"silent", "late", "early", "blocked-write", "blocked-flush", "close-in-progress", "reopen-in-progress"} {
 					timingCase("adapter", call, pk, to)
 				}
 				for _, pk := range []string{"silent", "late", "early"} {
 					timingCase("nats", call, pk, to)
 					timingCase("http", call, pk, to)
 				}
+				timingCase("http", call, "stall-mid-body", to)
 			}
 		}
 	}
